@@ -15,11 +15,30 @@
 
    Entries are the full records of Writer.tla  [g, k, v, hasv, quoted, cb, ca]  (+ line for parsed ones
    is not kept: C17 has its own module).                                                      *)
-EXTENDS Writer, FiniteSetsExt, SequencesExt
+EXTENDS Writer, Typed, FiniteSetsExt, SequencesExt
 
 Null == [null |-> TRUE]
 IsObj(o) == o # Null
-NewObject(d, c) == [ents |-> <<>>, secs |-> <<>>, path |-> <<>>, d |-> d, c |-> c]
+\* the options an object carries (econf_newKeyFile_with_options): parsing flags, explicit parsing directories, drop-in
+\* directory postfixes, root prefix (optional: <<>> or <<string>>)
+DefaultOpt == [join |-> FALSE, python |-> FALSE, pdirs |-> <<>>, cdirs |-> <<>>, root |-> <<>>]
+NewObject(d, c) == [ents |-> <<>>, secs |-> <<>>, path |-> <<>>, d |-> d, c |-> c, opt |-> DefaultOpt]
+
+\* ---------- option strings (lib/libeconf.c econf_newKeyFile_with_options) ----------
+\* items as tokenised by the harness: [name, arg] with name \in {"JOIN","PYTHON","PDIRS","CDIRS","ROOT","BAD"};
+\* every item acts as documented, an item given twice acts as its last occurrence, an unknown item refuses the string
+ApplyOpt(o, it) ==
+  CASE it.name = "JOIN"   -> [o EXCEPT !.join = (it.arg = 1)]
+    [] it.name = "PYTHON" -> [o EXCEPT !.python = (it.arg = 1)]
+    [] it.name = "PDIRS"  -> [o EXCEPT !.pdirs = it.arg]
+    [] it.name = "CDIRS"  -> [o EXCEPT !.cdirs = it.arg]
+    [] it.name = "ROOT"   -> [o EXCEPT !.root = <<it.arg>>]
+    [] OTHER -> o
+RECURSIVE FoldOpt(_, _)
+FoldOpt(o, items) == IF items = <<>> THEN o ELSE FoldOpt(ApplyOpt(o, Head(items)), Tail(items))
+OptResult(items) == IF \E i \in 1..Len(items) : items[i].name = "BAD"
+                    THEN [rc |-> "ECONF_OPTION_NOT_FOUND", obj |-> Null]
+                    ELSE [rc |-> "ECONF_SUCCESS", obj |-> [NewObject(0, 0) EXCEPT !.opt = FoldOpt(DefaultOpt, items)]]
 
 \* ---------- lookup / set (lib/helpers.c find_key, setKeyValue) ----------
 StripB(s) == IF Len(s) >= 2 /\ s[1] = LBR /\ s[Len(s)] = RBR
@@ -46,7 +65,7 @@ DumpE(o) == [groups |-> o.secs,
 ParArgs(delim, comment, py, jn) == [delim |-> delim, comment |-> IF comment = <<>> THEN <<35>> ELSE comment, python |-> py, join |-> jn]
 ObjectOfParse(st, path, delim, comment) ==
   [ents |-> EntsOfParse(st), secs |-> st.groups, path |-> path,
-   d |-> IF delim = <<>> THEN 0 ELSE delim[1], c |-> IF comment = <<>> THEN 35 ELSE comment[1]]
+   d |-> IF delim = <<>> THEN 0 ELSE delim[1], c |-> IF comment = <<>> THEN 35 ELSE comment[1], opt |-> DefaultOpt]
 ReadResultOpt(fs, path, delim, comment, py, jn) ==
   IF path \notin DOMAIN fs THEN [rc |-> "ECONF_NOFILE", obj |-> Null, errline |-> 0]
   ELSE LET st == ParseFile(fs[path], ParArgs(delim, comment, py, jn)) IN
@@ -79,7 +98,7 @@ MergeEnts(b, o) ==
   MergeLoopE(pre, b, o, 1) \o post
 SecsOfEnts(es) == LET gs == [i \in 1..Len(es) |-> es[i].g] IN SelectSeq(Dedup0(gs), LAMBDA g : g # NoGrp)
 MergeObjects(b, o) == [ents |-> MergeEnts(b.ents, o.ents), secs |-> SecsOfEnts(MergeEnts(b.ents, o.ents)),
-                       path |-> <<>>, d |-> b.d, c |-> b.c]
+                       path |-> <<>>, d |-> b.d, c |-> b.c, opt |-> DefaultOpt]
 
 \* ---------- econf_writeFile ----------
 WriteLines(o) == RenderCfg(o, o.d, o.c)
@@ -91,15 +110,24 @@ IsPrefixOf(p, s) == Len(p) <= Len(s) /\ SubSeq(s, 1, Len(p)) = p
 NamesIn(fs, dir) == {SubSeq(p, Len(dir) + 2, Len(p)) : p \in {q \in DOMAIN fs : IsPrefixOf(dir \o Slash, q) /\ ~InStr(47, SubSeq(q, Len(dir) + 2, Len(q)))}}
 DotSuffix(sfx) == IF sfx = <<>> THEN <<>> ELSE IF sfx[1] = 46 THEN sfx ELSE <<46>> \o sfx
 DropinsIn(fs, dir, sfx) == SetToSortSeq({n \in NamesIn(fs, dir) : Len(sfx) < Len(n) /\ EndsWith(n, sfx)}, ByteLess)
-ConsultedFs(fs, dirs, name, sfx) ==
+\* collapse repeated slashes (the library composes "<root>/<sub>/<project>" with sub = "/run": "//" means "/")
+RECURSIVE NormP(_)
+NormP(p) == IF Len(p) < 2 THEN p
+            ELSE IF p[1] = 47 /\ p[2] = 47 THEN NormP(Tail(p)) ELSE <<p[1]>> \o NormP(Tail(p))
+\* posts: the drop-in directory postfixes in force (object's CONFIG_DIRS, else the process-wide econf_set_conf_dirs list);
+\* <<>> = the default "<suffix>.d".  A postfix is appended to "<dir>/<name>": ".d" -> <name>.d, "/conf.d" -> <name>/conf.d
+ConsultedFsC(fs, dirs, name, sfx, posts) ==
   LET s == DotSuffix(sfx)
-      mains == SelectSeq([i \in 1..Len(dirs) |-> dirs[Len(dirs) + 1 - i] \o Slash \o name \o s], LAMBDA p : p \in DOMAIN fs)   \* highest first
+      ps == IF posts = <<>> THEN <<s \o <<46, 100>>>> ELSE posts
+      mains == SelectSeq([i \in 1..Len(dirs) |-> NormP(dirs[Len(dirs) + 1 - i] \o Slash \o name \o s)], LAMBDA p : p \in DOMAIN fs)   \* highest first
       main == IF mains = <<>> THEN <<>> ELSE <<mains[1]>>
       drops == Cat([i \in 1..Len(dirs) |->
-                      LET dd == dirs[i] \o Slash \o name \o s \o <<46, 100>>     \* "<dir>/<name><suffix>.d"
+                 Cat([q \in 1..Len(ps) |->
+                      LET dd == NormP(dirs[i] \o Slash \o name \o ps[q])        \* "<dir>/<name><postfix>"
                           ns == DropinsIn(fs, dd, s) IN
-                      [j \in 1..Len(ns) |-> dd \o Slash \o ns[j]]]) IN
+                      [j \in 1..Len(ns) |-> dd \o Slash \o ns[j]]])]) IN
   main \o drops
+ConsultedFs(fs, dirs, name, sfx) == ConsultedFsC(fs, dirs, name, sfx, <<>>)
 BaseName(p) == LET I == {i \in 1..Len(p) : p[i] = 47} IN IF I = {} THEN p ELSE SubSeq(p, Max(I) + 1, Len(p))
 \* masking as the library does it: every element but the first is dropped when a later one has the same base name
 \* (the first element is the merge base and is never dropped - known finding F4 when there is no main file)
@@ -107,8 +135,8 @@ MaskedFs(K, j) == j > 1 /\ \E j2 \in (j+1)..Len(K) : BaseName(K[j2]) = BaseName(
 RECURSIVE FoldObjs(_)
 FoldObjs(os) == IF Len(os) = 1 THEN os[1] ELSE MergeObjects(FoldObjs(SubSeq(os, 1, Len(os) - 1)), os[Len(os)])
 \* the parsing options of the object (PYTHON_STYLE, JOIN_SAME_ENTRIES) apply to EVERY file of a layered read
-ReadDirsResultOpt(fs, dirs, name, sfx, delim, comment, py, jn) ==
-  LET K == ConsultedFs(fs, dirs, name, sfx)
+ReadDirsResultC(fs, dirs, name, sfx, delim, comment, py, jn, posts) ==
+  LET K == ConsultedFsC(fs, dirs, name, sfx, posts)
       rs == [j \in 1..Len(K) |-> ReadResultOpt(fs, K[j], delim, comment, py, jn)]
       bad == {j \in 1..Len(K) : rs[j].rc # "ECONF_SUCCESS"} IN
   IF K = <<>> THEN [rc |-> "ECONF_NOFILE", obj |-> Null, errfile |-> <<>>, errline |-> 0]
@@ -117,5 +145,51 @@ ReadDirsResultOpt(fs, dirs, name, sfx, delim, comment, py, jn) ==
        [rc |-> "ECONF_SUCCESS", errfile |-> K[Len(K)], errline |-> rs[Len(K)].errline,
         obj |-> IF Len(K) = 1 THEN rs[1].obj                 \* a single file keeps its own path (Dev_SingleFileKeepsPath)
                 ELSE FoldObjs([n \in 1..Len(idx) |-> rs[idx[n]].obj])]
+ReadDirsResultOpt(fs, dirs, name, sfx, delim, comment, py, jn) == ReadDirsResultC(fs, dirs, name, sfx, delim, comment, py, jn, <<>>)
 ReadDirsResult(fs, dirs, name, sfx, delim, comment) == ReadDirsResultOpt(fs, dirs, name, sfx, delim, comment, FALSE, FALSE)
+
+\* ---------- econf_readConfig (lib/libeconf.c econf_readConfigWithCallback) ----------
+\* opt: the options of the object handed in (DefaultOpt for a NULL object); prj, usr, name: optional strings;
+\* gposts: the process-wide drop-in postfix list.  Which directories are read:
+\*   explicit PARSING_DIRS, else <root>/<usr>/<project>, <root>/run/<project>, <root>/etc/<project>;
+\*   no config name: the project name takes its place, there is no project subdirectory and the drop-in directory is <name>.d
+RunSub == <<47, 114, 117, 110>>   EtcSub == <<47, 101, 116, 99>>
+ConfigDirsOf(opt, prj, usr, noname) ==
+  LET pj == IF noname THEN <<>> ELSE prj
+      u  == IF usr = <<>> THEN <<>> ELSE usr[1]
+      base(sub) == IF opt.root # <<>>
+                   THEN (IF pj # <<>> THEN opt.root[1] \o Slash \o sub \o Slash \o pj[1] ELSE opt.root[1] \o sub)
+                   ELSE (IF pj # <<>> THEN sub \o Slash \o pj[1] ELSE sub) IN
+  IF opt.pdirs # <<>> THEN opt.pdirs ELSE <<NormP(base(u)), NormP(base(RunSub)), NormP(base(EtcSub))>>
+ReadConfigResult(fs, opt, prj, usr, name, sfx, delim, comment, gposts) ==
+  LET noname == name = <<>> \/ name = <<<<>>>> IN
+  IF noname /\ prj = <<>> THEN [rc |-> "ECONF_ARGUMENT_IS_NULL_VALUE", obj |-> Null, errfile |-> <<>>, errline |-> 0]
+  ELSE LET nm == IF noname THEN prj[1] ELSE name[1]
+           posts == IF noname THEN <<<<46, 100>>>> ELSE IF opt.cdirs # <<>> THEN opt.cdirs ELSE gposts IN
+       ReadDirsResultC(fs, ConfigDirsOf(opt, prj, usr, noname), nm, sfx, delim, comment, opt.python, opt.join, posts)
+
+\* ---------- history variants: every consulted file as its own object ----------
+HistoryResult(fs, dirs, name, sfx, delim, comment, posts) ==
+  LET K == ConsultedFsC(fs, dirs, name, sfx, posts)
+      rs == [j \in 1..Len(K) |-> ReadResult(fs, K[j], delim, comment)]
+      bad == {j \in 1..Len(K) : rs[j].rc # "ECONF_SUCCESS"} IN
+  IF K = <<>> THEN [rc |-> "ECONF_NOFILE", objs |-> <<>>]
+  ELSE IF bad # {} THEN [rc |-> rs[Min(bad)].rc, objs |-> <<>>]
+  ELSE [rc |-> "ECONF_SUCCESS", objs |-> [j \in 1..Len(K) |-> rs[j].obj]]
+
+\* ---------- typed access on top of the stored text (Typed.tla) ----------
+\* a stored text as an integer literal: optional sign, 0x / 0 prefix, digits of the base, nothing else
+DigitVal(c) == IF c >= 48 /\ c <= 57 THEN c - 48 ELSE IF c >= 97 /\ c <= 102 THEN c - 87 ELSE IF c >= 65 /\ c <= 70 THEN c - 55 ELSE 99
+LitOfText(t) ==
+  LET sg == IF t # <<>> /\ t[1] = 45 THEN "-" ELSE IF t # <<>> /\ t[1] = 43 THEN "+" ELSE ""
+      r1 == IF sg = "" THEN t ELSE Tail(t)
+      hex == Len(r1) >= 3 /\ r1[1] = 48 /\ r1[2] \in {120, 88}
+      oct == ~hex /\ Len(r1) >= 2 /\ r1[1] = 48
+      b  == IF hex THEN 16 ELSE IF oct THEN 8 ELSE 10
+      ds == IF hex THEN SubSeq(r1, 3, Len(r1)) ELSE IF oct THEN Tail(r1) ELSE r1
+      dv == [i \in 1..Len(ds) |-> DigitVal(ds[i])] IN
+  [ok |-> ds # <<>> /\ \A i \in 1..Len(dv) : dv[i] < b, lit |-> [sign |-> sg, base |-> b, digits |-> dv]]
+\* text stored by the integer setters / by econf_setBoolValue
+IntText(neg, mag) == LitText(CanonLit(neg, mag))
+BoolText(v) == IF v THEN Wtrue ELSE Wfalse
 =============================================================================
